@@ -43,6 +43,86 @@ func c01Monitor(c *plCfg, q *plQuery, o *plObs) (ok bool, msg string) {
 	}
 	protection, filteringOn, _, _, _ := plEffective(c, q)
 	res := o.Result
+	// the stages in front of filtering answer locally, blocked name or not
+	if c.DDR && q.Name == ddrHostFQDN {
+		if len(o.Calls) != 0 || o.Res == nil || o.Logged {
+			return false, fmt.Sprintf("DDR question: calls=%v logged=%v", o.Calls, o.Logged)
+		}
+		return true, ""
+	}
+	if plIsDHCPHostQuestion(c, q) {
+		if len(o.Calls) != 0 {
+			return false, fmt.Sprintf("the DHCP host name %s was sent upstream: %v", q.Name, o.Calls)
+		}
+		if !q.Private && (o.Res == nil || o.Res.Rcode != dns.RcodeNameError || o.Logged) {
+			return false, "a DHCP host name asked by a non-private client is not answered NXDOMAIN without logging"
+		}
+		return true, ""
+	}
+	rewriteReason := res != nil && (res.Reason == filtering.Rewritten || res.Reason == filtering.RewrittenRule ||
+		res.Reason == filtering.FilteredSafeSearch || res.Reason == filtering.RewrittenAutoHosts)
+	// what may be asked upstream at all: the question itself, the target of
+	// the administrator's rewrite / safe search, the block page's name
+	allowed := map[string]bool{strings.ToLower(q.Name): true}
+	if rewriteReason && res.CanonName != "" {
+		allowed[strings.ToLower(dns.Fqdn(res.CanonName))] = true
+	}
+	if res != nil && res.Reason == filtering.FilteredSafeBrowsing && c.SBHost != "" {
+		allowed = map[string]bool{strings.ToLower(dns.Fqdn(c.SBHost)): true}
+	}
+	if res != nil && res.Reason == filtering.FilteredParental && c.ParHost != "" {
+		allowed = map[string]bool{strings.ToLower(dns.Fqdn(c.ParHost)): true}
+	}
+	if res == nil {
+		// the handler failed (upstream error): the result did not reach the
+		// log; the configured rewrite targets are what may have been asked
+		for _, rw := range c.Rewrites {
+			allowed[strings.ToLower(dns.Fqdn(rw.Ans))] = true
+		}
+		for _, rs := range [][]*vfRule{c.Custom, c.Block} {
+			for _, r := range rs {
+				if r.Drw == "cname" {
+					allowed[strings.ToLower(dns.Fqdn(r.DrwName))] = true
+				}
+			}
+		}
+		for _, n := range []string{"forcesafesearch.google.com.", "strict.bing.com.", "safe.duckduckgo.com."} {
+			allowed[n] = true
+		}
+	}
+	for _, call := range o.Calls {
+		if !allowed[strings.ToLower(call.Name)] || call.Qtype != q.QType {
+			return false, fmt.Sprintf("upstream asked %v for question %s %d (result %v)", o.Calls, q.Name, q.QType, res)
+		}
+	}
+	if len(o.Calls) > 1 {
+		return false, fmt.Sprintf("upstream asked more than once: %v", o.Calls)
+	}
+	if rewriteReason {
+		// a rewritten question: the client's name is not what is resolved
+		// (unless the rewrite names it), the question is echoed, and the
+		// CNAME comes first
+		if len(o.Calls) == 1 {
+			if res.CanonName == "" || !strings.EqualFold(o.Calls[0].Name, dns.Fqdn(res.CanonName)) {
+				return false, fmt.Sprintf("rewritten question resolved %v, canonical name %q", o.Calls, res.CanonName)
+			}
+			if up := q.Extra[strings.ToLower(o.Calls[0].Name)]; up != nil && o.Res != nil {
+				if len(o.Res.Question) != 1 || o.Res.Question[0].Name != q.Name {
+					return false, "rewritten question: the client's question is not put back"
+				}
+				if len(o.Res.Answer) != len(up.Answer)+1 || !plSameRecords(o.Res.Answer[1:], up.Answer, false) {
+					return false, fmt.Sprintf("rewritten question: delivered %v, upstream gave %v", o.Res.Answer, up.Answer)
+				}
+				if cn, isCN := o.Res.Answer[0].(*dns.CNAME); !isCN || cn.Hdr.Name != q.Name || !strings.EqualFold(cn.Target, dns.Fqdn(res.CanonName)) {
+					return false, fmt.Sprintf("rewritten question: first record is %v", o.Res.Answer[0])
+				}
+			}
+		}
+		if !filteringOn && res.Reason != filtering.FilteredSafeSearch {
+			return false, fmt.Sprintf("filtering is off for the client but the result is %s", res.Reason)
+		}
+		return true, ""
+	}
 	reqBlocked := res != nil && res.IsFiltered && !o.OrigKept && len(o.Calls) == 0
 	ruleBlocked := res != nil && res.IsFiltered &&
 		(res.Reason == filtering.FilteredBlockList || res.Reason == filtering.FilteredBlockedService)
@@ -60,12 +140,18 @@ func c01Monitor(c *plCfg, q *plQuery, o *plObs) (ok bool, msg string) {
 			return false, fmt.Sprintf("blocked query (%s, mode %s) answered with something else than the blocking-mode answer: %s", res.Reason, c.Mode, why)
 		}
 	}
-	// the upstream is asked at most once and only for the question itself
-	if len(o.Calls) > 1 || (len(o.Calls) == 1 && (o.Calls[0].Name != q.Name || o.Calls[0].Qtype != q.QType)) {
-		return false, fmt.Sprintf("upstream asked %v for question %s %d", o.Calls, q.Name, q.QType)
+	// a block-page lookup never carries the blocked name
+	if res != nil && res.IsFiltered && !o.OrigKept &&
+		(res.Reason == filtering.FilteredSafeBrowsing || res.Reason == filtering.FilteredParental) {
+		for _, call := range o.Calls {
+			if strings.EqualFold(call.Name, q.Name) {
+				return false, fmt.Sprintf("the name blocked by %s was sent upstream: %v", res.Reason, o.Calls)
+			}
+		}
+		return true, ""
 	}
 	// forwarded and not touched by response filtering: the upstream answer intact
-	if len(o.Calls) == 1 && q.Answer != nil && (res == nil || !res.IsFiltered) {
+	if len(o.Calls) == 1 && strings.EqualFold(o.Calls[0].Name, q.Name) && q.Answer != nil && (res == nil || !res.IsFiltered) {
 		if o.Res == nil {
 			return false, "forwarded query has no response"
 		}
@@ -81,7 +167,7 @@ func c01Monitor(c *plCfg, q *plQuery, o *plObs) (ok bool, msg string) {
 	if !protection && res != nil && (res.IsFiltered || res.Reason != filtering.NotFilteredNotFound) {
 		return false, fmt.Sprintf("protection is off but the result is %s", res.Reason)
 	}
-	if !protection && len(o.Calls) != 1 {
+	if !protection && len(o.Calls) != 1 && !c.round2() && q.RDNS == (netip.Prefix{}) {
 		return false, "protection is off but the query was not forwarded"
 	}
 	// client filtering off: rule lists do not apply
@@ -108,6 +194,58 @@ func c01Monitor(c *plCfg, q *plQuery, o *plObs) (ok bool, msg string) {
 
 func c01Classes(c *plCfg, q *plQuery, o *plObs) (cl []string) {
 	res := o.Result
+	if c.DDR && q.Name == ddrHostFQDN {
+		cl = append(cl, "ddr-answered")
+	}
+	if plIsDHCPHostQuestion(c, q) {
+		switch {
+		case !q.Private:
+			cl = append(cl, "dhcp-host-nonprivate")
+		case o.Logged && o.Res != nil && o.Res.Rcode == dns.RcodeSuccess && (res == nil || res.Reason == filtering.NotFilteredNotFound):
+			cl = append(cl, "dhcp-host-answered")
+		case !o.Logged:
+			cl = append(cl, "dhcp-host-unknown-nxdomain")
+		default:
+			cl = append(cl, "dhcp-host-filtered-or-rewritten")
+		}
+	}
+	if q.RDNS != (netip.Prefix{}) {
+		cl = append(cl, "private-rdns")
+		if o.Res != nil && len(o.Res.Answer) == 1 && len(o.Calls) == 0 && (res == nil || res.Reason == filtering.NotFilteredNotFound) {
+			cl = append(cl, "dhcp-addr-answered")
+		}
+	}
+	if res != nil {
+		switch res.Reason {
+		case filtering.Rewritten:
+			if res.CanonName != "" && len(res.IPList) == 0 {
+				cl = append(cl, "legacy-rewrite-cname-forwarded")
+			} else {
+				cl = append(cl, "legacy-rewrite-local")
+			}
+		case filtering.RewrittenRule:
+			switch {
+			case res.CanonName != "":
+				cl = append(cl, "dnsrewrite-cname")
+			case res.DNSRewriteResult != nil && res.DNSRewriteResult.RCode != 0:
+				cl = append(cl, "dnsrewrite-rcode")
+			default:
+				cl = append(cl, "dnsrewrite-values")
+			}
+		case filtering.RewrittenAutoHosts:
+			cl = append(cl, "hosts-file-answer")
+		case filtering.FilteredSafeSearch:
+			if res.CanonName != "" {
+				cl = append(cl, "safesearch-cname")
+			} else {
+				cl = append(cl, "safesearch-addr")
+			}
+		case filtering.FilteredSafeBrowsing, filtering.FilteredParental:
+			if len(o.Calls) == 1 {
+				cl = append(cl, "blockpage-name-lookup")
+			}
+		}
+	}
 	if res != nil {
 		cl = append(cl, "reason-"+res.Reason.String())
 		if res.IsFiltered && !o.OrigKept {
@@ -172,7 +310,7 @@ func TestVerifC01(t *testing.T) {
 		ok, msg := c01Monitor(ps.cfg, q, &o)
 		res := o.Result
 		c := vfCase{
-			Coq:        plCaseCoq(ps.cfg, q, &o),
+			Coq:        plCaseCoq(ps, q, &o),
 			Nontrivial: res != nil && res.Reason != filtering.NotFilteredNotFound,
 			Classes:    append(c01Classes(ps.cfg, q, &o), extra...),
 			MonitorOK:  ok,
@@ -268,6 +406,162 @@ func TestVerifC01(t *testing.T) {
 		ps12 := plNewServer(t, base())
 		emit(ps12, &plQuery{Name: "a.test.", QType: dns.TypeA, Addr: cli, Answer: nil}, "upstream-error")
 		ask(ps12, "use-application-dns.net.", dns.TypeA, "canary")
+	}
+
+	// --- round 2 prelude: rewrites, hosts file, safe search, named block page, DDR, DHCP
+	askX := func(ps *plServer, q *plQuery, extra ...string) {
+		q.Addr = cli
+		if q.Answer == nil {
+			q.Answer = c01Answer(rnd.Fork(3), q.Name, q.QType)
+		}
+		emit(ps, q, extra...)
+	}
+	target := func(name string) map[string]*dns.Msg {
+		return map[string]*dns.Msg{name: plMsg(dns.RcodeSuccess, plA(name, 77, "198.51.100.7"), plA(name, 78, "1.2.3.4"))}
+	}
+	{
+		c := base()
+		c.Rewrites = []plRewrite{{"a.test", "192.0.2.55"}, {"x.test", "b.a.test"}, {"*.xa.test", "xa.test"}, {"c.b.a.test", "A"}}
+		c.Block = []*vfRule{{ID: 100, Pattern: "||a.test^"}, {ID: 101, Pattern: "||1.2.3.4^"}}
+		ps := plNewServer(t, c)
+		askX(ps, &plQuery{Name: "a.test.", QType: dns.TypeA}, "rewrite-over-block")
+		askX(ps, &plQuery{Name: "a.test.", QType: dns.TypeAAAA}, "rewrite-over-block")
+		askX(ps, &plQuery{Name: "X.test.", QType: dns.TypeA, Extra: target("b.a.test.")}, "rewrite-cname-to-blocked-target")
+		askX(ps, &plQuery{Name: "x.test.", QType: dns.TypeA, Extra: map[string]*dns.Msg{"b.a.test.": nil}}, "rewrite-cname-upstream-error")
+		askX(ps, &plQuery{Name: "w.xa.test.", QType: dns.TypeA, Extra: target("xa.test.")})
+		askX(ps, &plQuery{Name: "c.b.a.test.", QType: dns.TypeA}, "rewrite-type-exception-then-blocked")
+		askX(ps, &plQuery{Name: "b.a.test.", QType: dns.TypeA})
+		c2 := base()
+		c2.Rewrites = c.Rewrites
+		c2.Block = c.Block
+		c2.Clients = []plClient{{Name: "kid", IPs: []string{"10.0.0.1"}, UseOwn: true, Filtering: false}}
+		askX(plNewServer(t, c2), &plQuery{Name: "a.test.", QType: dns.TypeA}, "rewrite-skipped-filtering-off")
+	}
+	{
+		c := base()
+		c.Custom = []*vfRule{
+			{ID: 0, Pattern: "||r.io^", Drw: "addr", DrwAddr: netip.MustParseAddr("192.0.2.60")},
+			{ID: 1, Pattern: "||r.io^"},
+			{ID: 2, Pattern: "||r.io^", Drw: "addr", DrwAddr: netip.MustParseAddr("2001:db8::60"), DrwLong: true},
+			{ID: 3, Pattern: "|s.io^", Drw: "cname", DrwName: "b.a.test"},
+			{ID: 4, Pattern: "||t.io^", Drw: "rcode", DrwRcode: dns.RcodeRefused},
+			{ID: 5, Pattern: "||u.io^", Drw: "addr", DrwAddr: netip.MustParseAddr("192.0.2.61")},
+			{ID: 6, Pattern: "||u.io^", White: true, Drw: "addr", DrwAddr: netip.MustParseAddr("192.0.2.61")},
+			{ID: 7, Pattern: "||v.io^", Drw: "rcode", DrwRcode: 0, DrwLong: true},
+			{ID: 8, Pattern: "||v.io^", White: true, Drw: "rcode"},
+			{ID: 9, Pattern: "||y.io^", Drw: "addr", DrwAddr: netip.MustParseAddr("192.0.2.62"), Important: true},
+			{ID: 10, Pattern: "||y.io^", White: true, Drw: "rcode"},
+			{ID: 11, Pattern: "||a.test^"},
+		}
+		ps := plNewServer(t, c)
+		for _, qt := range []uint16{dns.TypeA, dns.TypeAAAA, dns.TypeTXT} {
+			askX(ps, &plQuery{Name: "r.io.", QType: qt}, "dnsrewrite-over-block")
+		}
+		askX(ps, &plQuery{Name: "w.r.io.", QType: dns.TypeA})
+		askX(ps, &plQuery{Name: "s.io.", QType: dns.TypeA, Extra: target("b.a.test.")}, "dnsrewrite-cname-to-blocked-target")
+		askX(ps, &plQuery{Name: "t.io.", QType: dns.TypeA})
+		askX(ps, &plQuery{Name: "u.io.", QType: dns.TypeA}, "dnsrewrite-exception")
+		askX(ps, &plQuery{Name: "v.io.", QType: dns.TypeA}, "dnsrewrite-disabled-by-empty-exception")
+		askX(ps, &plQuery{Name: "y.io.", QType: dns.TypeA}, "dnsrewrite-important-survives")
+		c2 := base()
+		c2.ProtEnabled = false
+		c2.Custom = c.Custom
+		askX(plNewServer(t, c2), &plQuery{Name: "r.io.", QType: dns.TypeA}, "dnsrewrite-with-protection-off")
+		c3 := base()
+		c3.Custom = []*vfRule{{ID: 0, Pattern: "||a.test^", CtPerm: []string{"device_pc"}}, {ID: 1, Pattern: "||x.test^", CtRestr: []string{"device_pc"}}}
+		c3.Clients = []plClient{{Name: "pc", IPs: []string{"10.0.0.1"}, Tags: []string{"device_pc", "user_child"}}}
+		ps3 := plNewServer(t, c3)
+		askX(ps3, &plQuery{Name: "a.test.", QType: dns.TypeA}, "ctag-match")
+		askX(ps3, &plQuery{Name: "x.test.", QType: dns.TypeA}, "ctag-restricted")
+		emit(ps3, &plQuery{Name: "a.test.", QType: dns.TypeA, Addr: netip.MustParseAddr("10.0.0.2"), Answer: c01Answer(rnd.Fork(4), "a.test.", dns.TypeA)}, "ctag-mismatch")
+	}
+	{
+		c := base()
+		c.HostsOn = true
+		c.Hosts = []plHostsLine{{"192.0.2.70", []string{"h.test", "a.test"}}, {"2001:db8::70", []string{"h.test"}}, {"::ffff:192.0.2.71", []string{"m.test"}}}
+		c.Block = []*vfRule{{ID: 100, Pattern: "||a.test^"}, {ID: 101, Pattern: "||h.test^"}}
+		ps := plNewServer(t, c)
+		for _, qt := range []uint16{dns.TypeA, dns.TypeAAAA, dns.TypeTXT} {
+			askX(ps, &plQuery{Name: "h.test.", QType: qt}, "hosts-file-over-block")
+		}
+		askX(ps, &plQuery{Name: "A.test.", QType: dns.TypeAAAA})
+		askX(ps, &plQuery{Name: "m.test.", QType: dns.TypeA})
+		askX(ps, &plQuery{Name: "m.test.", QType: dns.TypeAAAA})
+		askX(ps, &plQuery{Name: "70.2.0.192.in-addr.arpa.", QType: dns.TypePTR}, "hosts-file-ptr")
+		askX(ps, &plQuery{Name: "7.8.9.10.in-addr.arpa.", QType: dns.TypePTR})
+	}
+	{
+		c := base()
+		c.SafeSearch = true
+		c.Block = []*vfRule{{ID: 100, Pattern: "||bing.com^"}}
+		ps := plNewServer(t, c)
+		askX(ps, &plQuery{Name: "www.google.com.", QType: dns.TypeA, Extra: target("forcesafesearch.google.com.")})
+		askX(ps, &plQuery{Name: "www.google.com.", QType: dns.TypeTXT})
+		askX(ps, &plQuery{Name: "yandex.ru.", QType: dns.TypeA})
+		askX(ps, &plQuery{Name: "yandex.ru.", QType: dns.TypeAAAA, Extra: target("yandex.ru.")})
+		askX(ps, &plQuery{Name: "www.bing.com.", QType: dns.TypeA}, "block-over-safesearch")
+		c2 := base()
+		c2.Clients = []plClient{{Name: "kid", IPs: []string{"10.0.0.1"}, UseOwn: true, Filtering: true, SafeSearch: true}}
+		askX(plNewServer(t, c2), &plQuery{Name: "duckduckgo.com.", QType: dns.TypeA, Extra: target("safe.duckduckgo.com.")}, "client-safesearch")
+	}
+	{
+		c := base()
+		c.SB, c.SBHosts, c.SBHost = true, []string{"a.test"}, "block.page"
+		c.Par, c.ParHosts, c.ParHost = true, []string{"x.test"}, "family.block.page"
+		ps := plNewServer(t, c)
+		page := map[string]*dns.Msg{"block.page.": plMsg(dns.RcodeSuccess, plCNAME("block.page.", 50, "host.block.page."), plA("host.block.page.", 51, "192.0.2.80")),
+			"family.block.page.": nil}
+		askX(ps, &plQuery{Name: "a.test.", QType: dns.TypeA, Extra: page}, "blockpage-by-name")
+		askX(ps, &plQuery{Name: "a.test.", QType: dns.TypeHTTPS, Extra: page}, "blockpage-by-name")
+		askX(ps, &plQuery{Name: "a.test.", QType: dns.TypeTXT, Extra: page})
+		askX(ps, &plQuery{Name: "x.test.", QType: dns.TypeA, Extra: page}, "blockpage-lookup-fails")
+	}
+	{
+		c := base()
+		c.DDR, c.DDRHasIP, c.DDRDoH, c.DDRDoT, c.DDRDoQ = true, true, []int{8044}, []int{853}, []int{8853}
+		c.Block = []*vfRule{{ID: 100, Pattern: "||resolver.arpa^"}}
+		ps := plNewServer(t, c)
+		askX(ps, &plQuery{Name: "_dns.resolver.arpa.", QType: dns.TypeSVCB}, "ddr-blocked-name-answered-locally")
+		askX(ps, &plQuery{Name: "_dns.resolver.arpa.", QType: dns.TypeA})
+		askX(ps, &plQuery{Name: "_DNS.resolver.arpa.", QType: dns.TypeSVCB}, "ddr-other-case-is-filtered")
+		c2 := base()
+		c2.Block = c.Block
+		askX(plNewServer(t, c2), &plQuery{Name: "_dns.resolver.arpa.", QType: dns.TypeSVCB}, "ddr-off")
+	}
+	{
+		c := base()
+		c.DHCPOn = true
+		c.Leases = []plLease{{"kid", "192.168.1.5"}, {"tv", "192.168.1.6"}}
+		c.Block = []*vfRule{{ID: 100, Pattern: "||kid.lan^"}, {ID: 101, Pattern: "||nobody.lan^"}}
+		c.Rewrites = []plRewrite{{"ghost.lan", "x.test"}, {"spirit.lan", "192.0.2.90"}}
+		c.DNS64 = true
+		ps := plNewServer(t, c)
+		askX(ps, &plQuery{Name: "kid.lan.", QType: dns.TypeA, Private: true}, "dhcp-host-with-block-rule")
+		askX(ps, &plQuery{Name: "Kid.LAN.", QType: dns.TypeAAAA, Private: true}, "dhcp-host-dns64")
+		askX(ps, &plQuery{Name: "kid.lan.", QType: dns.TypeA, Private: false})
+		askX(ps, &plQuery{Name: "kid.lan.", QType: dns.TypeTXT, Private: true})
+		askX(ps, &plQuery{Name: "nobody.lan.", QType: dns.TypeA, Private: true}, "dhcp-unknown-host-blocked")
+		askX(ps, &plQuery{Name: "other.lan.", QType: dns.TypeA, Private: true}, "dhcp-unknown-host")
+		askX(ps, &plQuery{Name: "ghost.lan.", QType: dns.TypeA, Private: true, Extra: target("x.test.")}, "dhcp-unknown-host-rewritten-cname")
+		askX(ps, &plQuery{Name: "spirit.lan.", QType: dns.TypeA, Private: true}, "dhcp-unknown-host-rewritten-addr")
+		askX(ps, &plQuery{Name: "a.kid.lan.", QType: dns.TypeA, Private: true})
+		rd := netip.MustParsePrefix("192.168.1.5/32")
+		askX(ps, &plQuery{Name: "5.1.168.192.in-addr.arpa.", QType: dns.TypePTR, Private: true, RDNS: rd}, "dhcp-addr-ptr")
+		c2 := base()
+		c2.DHCPOn = true
+		c2.Leases = c.Leases
+		askX(plNewServer(t, c2), &plQuery{Name: "kid.lan.", QType: dns.TypeAAAA, Private: true}, "dhcp-host-aaaa-no-dns64")
+	}
+
+	// --- round 2 random configurations
+	nX := out.Scale(150, 3000)
+	for i := 0; i < nX; i++ {
+		c := plGenCfgX(rnd)
+		ps := plNewServer(t, c)
+		for k := 0; k < 12; k++ {
+			q := plGenQueryX(rnd, c)
+			emit(ps, q)
+		}
 	}
 
 	// --- random configurations
